@@ -20,6 +20,9 @@ def capkey(n):
     v = cval(n)
     if v is not None:
         return "#%d" % v
+    k = lv(n)
+    if k is not None:
+        return k
     return src(n)
 
 
